@@ -530,13 +530,20 @@ func convMapToTarget(source interface{}, target reflect.Type) (interface{}, erro
 
 	sv := reflect.ValueOf(source)
 	result := reflect.MakeMap(target)
+	// map iteration order is random: of several entries that cannot be converted, report the
+	// one with the smallest key, so that the same call fails with the same error every time
+	var firstErr error
+	var firstErrKey string
 	iter := sv.MapRange()
 	for iter.Next() {
 		k := iter.Key()
 		v := iter.Value()
 		evalue, err := convTypeToTarget(v.Interface(), target.Elem())
 		if err != nil {
-			return nil, err
+			if ks := fmt.Sprint(k); firstErr == nil || ks < firstErrKey {
+				firstErr, firstErrKey = err, ks
+			}
+			continue
 		}
 		if evalue == nil {
 			// keep the key: a zero reflect.Value would delete it
@@ -544,6 +551,9 @@ func convMapToTarget(source interface{}, target reflect.Type) (interface{}, erro
 			continue
 		}
 		result.SetMapIndex(k, reflect.ValueOf(evalue))
+	}
+	if firstErr != nil {
+		return nil, firstErr
 	}
 	return result.Interface(), nil
 }
